@@ -195,7 +195,7 @@ func (x *Exec) mathCall(name string, args []Val, e *ast.CallExpr, st *State) []V
 		if xr {
 			return []Val{{T: mk("xisnan", SBool, args[0].T), Ty: tyBool}}
 		}
-		return []Val{{T: tFalse, Ty: tyBool}}
+		return []Val{{T: Eq(args[0].T, x.rnan()), Ty: tyBool}}
 	case "IsInf":
 		if xr {
 			sgn := args[1].T
@@ -213,7 +213,7 @@ func (x *Exec) mathCall(name string, args []Val, e *ast.CallExpr, st *State) []V
 		if xr {
 			return []Val{fl(mk("nan", SXR))}
 		}
-		x.unsupported(e, "math.NaN in model real")
+		return []Val{fl(x.rnan())}
 	case "Modf":
 		// int part (truncated), fractional part
 		if xr {
@@ -241,6 +241,13 @@ func (x *Exec) mathCall(name string, args []Val, e *ast.CallExpr, st *State) []V
 	}
 	x.unsupported(e, "unsupported math function %s", name)
 	panic("unreachable")
+}
+
+// rnan: in model real a NaN that is only produced and tested, never
+// computed with, is a distinguished constant; finite inputs differ from it.
+func (x *Exec) rnan() *Term {
+	x.noteTrusted("model real: NaN is a distinguished value that the code may return or test but is assumed not to compute with (arithmetic on NaN is not modelled; use model xreal for that)")
+	return x.sym.Const("rnan", SReal)
 }
 
 // mathFn: transcendental functions are uninterpreted; the ground facts
